@@ -29,6 +29,7 @@ extern('stream', 'flush', why="the caller's stream: flush() writes nothing", req
 
 define('LOG', ['s'], "seq(s.stream.g_log)")
 define('ENC', ['s', 'text'], "(text.encode(s.encoding) if s.encoding else text)")
+define('inv_prefixes', ['s'], "s.tag_prefixes is not None and sortable_keys(s.tag_prefixes) and forall_v(k, haskey(s.tag_prefixes, k) ==> (typeis(k, 'str') and typeis(dget(s.tag_prefixes, k), 'str')))")
 define('inv_prep', ['s'], "(s.prepared_anchor is None or len(s.prepared_anchor) > 0) and (s.prepared_tag is None or len(s.prepared_tag) > 0)")
 define('inv_pos', ['s'], "s.column >= 0 and s.line >= 0 and (s.indent is None or s.indent >= 0) and 2 <= s.best_indent and s.best_indent <= 9 and heapobj(s.stream.g_log)")
 
@@ -148,10 +149,17 @@ contract(E + 'determine_block_hints', props=['C02', 'C05'],
     modifies=[], raises=[])
 
 # ---- C05: anchors and tags: what was prepared for one node never leaks into the next
-contract(E + 'prepare_anchor', trusted=True, why='character-class loop over the anchor text; only "returns the anchor or raises EmitterError" is used',
-         params={'anchor': 'str'}, result='str', requires=[], ensures=["result == anchor and len(result) > 0"], modifies=[], raises=[EERR])
-contract(E + 'prepare_tag', trusted=True, why='escaping loop over the tag text; only "returns a non-empty text or raises EmitterError" is used',
-         params={'tag': 'str'}, result='str', requires=["self.tag_prefixes is not None"], ensures=["len(result) > 0"], modifies=[], raises=[EERR])
+contract(E + 'prepare_anchor', props=['C05'],
+         params={'anchor': 'str'}, result='str', requires=[], ensures=["result == anchor and len(result) > 0"], labels={0: 'the-anchor-itself-non-empty'},
+         invariants={0: ["typeis(anchor, 'str')"]}, modifies=[], raises=[EERR])
+_PT_INV = ["typeis(tag, 'str') and typeis(suffix, 'str') and typeis(chunks, 'list') and fresh(chunks) and 0 <= start and start <= end and end <= len(suffix)",
+           "forall(j, 0, len(chunks), typeis(chunks[j], 'str'))", "handle is None or typeis(handle, 'str')"]
+contract(E + 'prepare_tag', props=['C05'],
+         params={'tag': 'str'}, result='str',
+         requires=["inv_prefixes(self)"],
+         ensures=["len(result) > 0"], labels={0: 'non-empty-text'},
+         invariants={0: ["typeis(tag, 'str') and typeis(suffix, 'str')", "handle is None or typeis(handle, 'str')"], 1: _PT_INV, 2: _PT_INV},
+         modifies=[], raises=[EERR])
 contract(E + 'analyze_scalar', trusted=True, why='character scan of the scalar; only the shape of the result is used here',
          params={'scalar': 'str'}, result='obj:yaml.emitter.ScalarAnalysis', requires=[], ensures=["fresh(result) and result.scalar == scalar and result.empty == (len(scalar) == 0)",
                                                                                                      "result.empty ==> not result.multiline"], modifies=[], raises=[])
@@ -191,7 +199,7 @@ contract(E + 'choose_scalar_style', props=['C02', 'C08', 'C05'],
 
 contract(E + 'process_tag', props=['C05', 'C02', 'C08'],
     requires=["inv_pos(self)", "typeis(self.event, 'obj:yaml.events.ScalarEvent') or typeis(self.event, 'obj:yaml.events.CollectionStartEvent')", "ev_ok(self.event)",
-              "self.tag_prefixes is not None", "inv_prep(self)"],
+              "inv_prefixes(self)", "inv_prep(self)"],
     ensures=["inv_pos(self)",
              # C05: whatever check_simple_key prepared for this node is consumed here, on every path
              "self.prepared_tag is None",
